@@ -505,7 +505,7 @@ public:
      * @param numExtraBytes an additional number of bytes that the buffer should have room for.  Defaults to zero.
      * @returns B_NO_ERROR on success, or an error code on failure (although I don't know why this method would ever fail).
      */
-   status_t ShrinkToFit(uint32 numExtraBytes = 0) {return EnsureBufferSize(FlattenedSize()+numExtraBytes, true, true);}
+   status_t ShrinkToFit(uint32 numExtraBytes = 0) {return EnsureBufferSize(FlattenedSize()+muscleMin(numExtraBytes, MUSCLE_NO_LIMIT-FlattenedSize()), true, true);}  // saturating add: a wrapped-around sum would cut the string short
 
    /** Sets our state from the given C-style string.
      * @param str The new string to copy from.  If maxLen is negative, this may be NULL.
